@@ -94,7 +94,7 @@ def snapshots(commands, global_decls=False):
 DEFAULTS = dict(ncmds=(8, 26), p_push=0.12, p_pop=0.10, p_check=0.22, named=0.0, nested_named=0.0, defines=0.0,
                 queries=(), q_prob=0.7, unsat_bias=0.3, all_named=False, max_live=14, max_depth=3, big=0.15, max_push=4,
                 reassert=0.08, value_terms=True, final_check=True, clausal=0.35, bool_args=True, allow_let=True, reenter=0.25, horn=0.3, hard3=0.25,
-                uf_heavy=0.4, dl_dense=0.5)
+                uf_heavy=0.4, dl_dense=0.5, la_dense=0.3)
 
 
 class HistGen:
@@ -110,7 +110,11 @@ class HistGen:
         # the constraint graph has several paths and cycles between the same vertices (distance updates, explanations of
         # deduced edges, negative cycles closed by the last edge)
         self.dl_dense = gen.PROFILES[prof]['dl'] and self.o['clausal'] > 0 and rng.random() < self.o['dl_dense']
-        self.sig = gen.make_signature(rng, prof, self.o['bool_args'], nconsts=(5, 8) if self.horn else ((4, 6) if self.dl_dense else (2, 4)))
+        # "la-dense" mode (linear arithmetic): 3-4 numeric variables, pool of 10-20 bounds on variables and on short linear
+        # combinations with small coefficients
+        pp0 = gen.PROFILES[prof]
+        self.la_dense = bool(pp0['nums']) and not pp0['dl'] and self.o['clausal'] > 0 and rng.random() < self.o['la_dense']
+        self.sig = gen.make_signature(rng, prof, self.o['bool_args'], nconsts=(5, 8) if self.horn else ((4, 6) if self.dl_dense else ((3, 4) if self.la_dense else (2, 4))))
         self.tg = gen.TermGen(rng, prof, self.sig, big_consts=self.o['big'], max_depth=self.o['max_depth'])
         self.tg.allow_let = self.o['allow_let']
         pp = gen.PROFILES[prof]
@@ -126,7 +130,7 @@ class HistGen:
         self.pending = []
         self.def_id = 0
         self.pool = None
-        if self.horn or self.dl_dense or rng.random() < self.o['clausal']:
+        if self.horn or self.dl_dense or self.la_dense or rng.random() < self.o['clausal']:
             # "hard" mode: random 2-3 literal clauses over a fixed pool of atoms, so that the answer needs search
             # "hard3": 3-literal clauses only, at a clause / atom ratio around the random 3-SAT threshold, so that the answer
             # needs tens of conflicts instead of being decided by propagation
@@ -135,6 +139,8 @@ class HistGen:
             if self.dl_dense:
                 n = rng.randint(12, 24)
                 self.tg.big = 0.0
+            if self.la_dense:
+                n = rng.randint(10, 20)
             self.pool = []
             seen_atoms = set()
             for _ in range(n):
@@ -142,6 +148,8 @@ class HistGen:
                     a = self.tg.atom(rng.randint(0, 2) if not self.horn else 0)
                     if self.dl_dense and rng.random() < 0.9:
                         a = self.tg.dl_atom(rng.choice(gen.PROFILES[prof]['nums']), 0)
+                    if self.la_dense and rng.random() < 0.85:
+                        a = self.tg.la_atom(rng.choice(gen.PROFILES[prof]['nums']))
                     txt = pr(a, False)
                     # no syntactically trivial atoms ((= x x), (distinct x x), (< x x)) and no duplicates in the pool
                     trivial = a.op == 'app' and len(a.args) >= 2 and len({pr(x, False) for x in a.args}) < len(a.args)
